@@ -13,8 +13,8 @@
    every enumerated call.
    Statements only. *)
 From Coq Require Import String.
-From Coq Require Import ZArith QArith List Bool Arith Permutation.
-From BS Require Import Core.Base Core.GridQ Model.Aod Proofs.AodProofs Proofs.AodRoundTrip Proofs.AodSelect Proofs.AodPre.
+From Coq Require Import ZArith QArith List Bool Arith Permutation Lia.
+From BS Require Import Core.Base Core.GridQ Model.Aod Model.LibMoves Proofs.AodProofs Proofs.AodRoundTrip Proofs.AodSelect Proofs.AodPre Proofs.LibMovesProofs.
 Import ListNotations.
 
 Theorem C08_no_atom_lost_or_duplicated : forall st ps st',
@@ -171,6 +171,62 @@ Example C08_example :
   /\ round_trip_ok (traps st0) (occ st0) [fwd; bwd] = true /\ round_trip_ok (traps st0) (occ st0) [fwd; swapped] = false.
 Proof. vm_compute. repeat split; reflexivity. Qed.
 
+(* ---- the library kernels themselves (Model/LibMoves.v: the played paths as a function of the zone's coordinates and the call's
+   index lists; compared with the implementation on every enumerated call, acceptance and paths) ---- *)
+
+(* the CZ move accepts a call with a non-empty column selection EXACTLY under the documented preconditions (equal lengths, non-empty
+   ascending lists inside the zone) and then plays the round-trip paths; otherwise it is rejected *)
+Theorem C08_cz_move_accepts_exactly_the_documented_calls : forall zx zy cx cy qx qy sx sy,
+  (1 <= length cx)%nat -> (1 <= length qx)%nat ->
+  (cz_preconditions zx zy cx cy qx qy <-> cz_model zx zy cx cy qx qy sx sy = Some (cz_paths zx zy cx cy qx qy sx sy)) /\
+  (cz_model zx zy cx cy qx qy sx sy = None \/ cz_model zx zy cx cy qx qy sx sy = Some (cz_paths zx zy cx cy qx qy sx sy)).
+Proof. exact cz_model_accepts_iff. Qed.
+
+(* ... and EVERY call the CZ move accepts - any zone with ascending coordinates, any index lists, any shifts, any occupancy - is
+   physically executable and returns every atom to the site it came from ("rejected or executable", "ends where documented") *)
+Theorem C08_cz_move_every_accepted_call_is_executable : forall zx zy cx cy qx qy sx sy O ps,
+  ascending_q zx -> ascending_q zy -> occ_wfb O = true ->
+  cz_model zx zy cx cy qx qy sx sy = Some ps ->
+  exists st', sim_paths (mkast (grid_sites (zx, zy)) O [] [] []) ps = AOk st' /\
+    held st' = [] /\ forall p, occ_find p (occ st') = occ_find p O.
+Proof. exact cz_model_accepted_is_executable. Qed.
+
+(* rearrange: an accepted call whose parking coordinates are pairwise different and whose destination sites are vacant (or vacated by
+   the move) is executable, and the atom of zone[src_x[i], src_y[j]] ends on zone[dst_x[i], dst_y[j]] *)
+Theorem C08_rearrange_accepted_strict_call_delivers : forall zx zy sx sy dx dy ps O,
+  ascending_q zx -> ascending_q zy -> occ_wfb O = true ->
+  rearrange_model zx zy sx sy dx dy = Some ps -> ps <> [] ->
+  rearrange_strict zx zy sx sy dx dy = true ->
+  forallb (fun p => match occ_find p O with None => true | Some _ => existsb (pos_eqb p) (grid_sites (pick_coords sx zx, pick_coords sy zy)) end)
+          (grid_sites (pick_coords dx zx, pick_coords dy zy)) = true ->
+  exists st', sim_paths (mkast (grid_sites (zx, zy)) O [] [] []) ps = AOk st' /\ held st' = [] /\
+    forall i j, (i < length sx)%nat -> (j < length sy)%nat ->
+      occ_find (nth (nth i dx 0%nat) zx 0%Q, nth (nth j dy 0%nat) zy 0%Q) (occ st') =
+      occ_find (nth (nth i sx 0%nat) zx 0%Q, nth (nth j sy 0%nat) zy 0%Q) O.
+Proof. exact rearrange_model_delivers. Qed.
+
+(* the full statement "every accepted rearrange call is executable" is FALSE of the faithful model: the hard-coded +-3 parking offsets
+   make two tweezers coincide on a zone with pair pitch 6 (known finding; the witness is the replay) *)
+Theorem C08_rearrange_acceptance_alone_refuted :
+  exists zx zy sx sy dx dy ps,
+    rearrange_model zx zy sx sy dx dy = Some ps /\
+    sim_paths (mkast (grid_sites (zx, zy)) [((2#1, 0)%Q, 1%nat); ((8#1, 0)%Q, 2%nat)] [] [] []) ps = AErr ECollide.
+Proof. exact rearrange_accepts_coinciding_refuted. Qed.
+
+(* the hypotheses are satisfiable: a 3x2 zone at pitch 10, control column 0, target column 1; a two-pair zone at pitch 10 *)
+Example C08_library_kernel_hypotheses_hold_somewhere :
+  cz_preconditions [0; 10#1; 20#1]%Q [0; 10#1]%Q [0%nat] [0%nat; 1%nat] [1%nat] [0%nat; 1%nat] /\
+  (exists ps, cz_model [0; 10#1; 20#1]%Q [0; 10#1]%Q [0%nat] [0%nat; 1%nat] [1%nat] [0%nat; 1%nat] (2#1) (2#1) = Some ps /\ length ps = 2%nat) /\
+  (exists ps, rearrange_model [0; 2#1; 12#1; 14#1]%Q [0; 10#1]%Q [1%nat; 2%nat] [0%nat] [0%nat; 3%nat] [1%nat] = Some ps /\ length ps = 1%nat) /\
+  rearrange_strict [0; 2#1; 12#1; 14#1]%Q [0; 10#1]%Q [1%nat; 2%nat] [0%nat] [0%nat; 3%nat] [1%nat] = true.
+Proof.
+  split; [|split; [|split]].
+  - unfold cz_preconditions. simpl. repeat split; try lia; intros i [<- | [<- | []]] || intros i [<- | []]; lia.
+  - eexists. split; [vm_compute; reflexivity | reflexivity].
+  - eexists. split; [vm_compute; reflexivity | reflexivity].
+  - vm_compute. reflexivity.
+Qed.
+
 Print Assumptions C08_no_atom_lost_or_duplicated.
 Print Assumptions C08_release_only_onto_vacant_trap_sites.
 Print Assumptions C08_spots_light_up_only_on_trap_sites.
@@ -186,3 +242,7 @@ Print Assumptions C08_recognised_selected_transport_is_executable_and_delivers.
 Print Assumptions C08_positive_spacings_give_ascending_coordinates.
 Print Assumptions C08_documented_preconditions_meet_the_hypotheses.
 Print Assumptions C08_documented_transport_delivers.
+Print Assumptions C08_cz_move_accepts_exactly_the_documented_calls.
+Print Assumptions C08_cz_move_every_accepted_call_is_executable.
+Print Assumptions C08_rearrange_accepted_strict_call_delivers.
+Print Assumptions C08_rearrange_acceptance_alone_refuted.
